@@ -76,13 +76,9 @@ def run(ctx):
                 continue
             oc = outcome(b)
             if "::{closure" in n and b.arg_count >= 2 and b.local_ty(2).startswith("&[u8]"):
-                words = set()
-                for w, leaf in slice_patterns(b, 2):
-                    failing = leaf in oc.fail_blocks or leaf not in oc.success_reach()
-                    if w is not None and not failing:
-                        words.add(w)
-                    if w is None and not failing:
-                        unknown_ok.append(n)
+                words, wild_ok = C09.accepted_names(f, b, 2)
+                if wild_ok:
+                    unknown_ok.append(n)
                 if words:
                     rsets.append(frozenset(words))
             reach = oc.success_reach()
